@@ -11,6 +11,7 @@ the branch visited); assignment tracking is balanced; enclosing scopes are alway
 transitively (find_ref / find_load), never through a parent's tables directly; namespace
 stores are preceded by the emitted Namespace check; an unresolved load never leaks the
 ``missing`` sentinel; template identifiers reach Python identifiers unnormalised (finding).
+Also: the Namespace guard covers dotted references inside tuple targets of both set forms; a namespace owns a fresh dict; a macro parameter counts as bound only after its default was emitted.  
 Not decided: the load/alias decisions of Symbols on arbitrary program shapes.
 """
 
